@@ -398,6 +398,10 @@ namespace GeographicLib {
       // The last condition is that M0 = -1 implies N0 = -1.
       throw GeographicErr("Bad degree and order " +
                           Utility::str(N0) + " " + Utility::str(M0));
+    // Make sure that the sizes of the coefficient arrays in bytes can be
+    // computed with int arithmetic
+    if (N0 >= (1 << 14))
+      throw GeographicErr("Degree " + Utility::str(N0) + " too large");
     N = truncate ? min(N, N0) : N0;
     M = truncate ? min(M, M0) : M0;
     C.resize(SphericalEngine::coeff::Csize(N, M));
